@@ -4,6 +4,7 @@ import LogosModel.Look.FastOracle
 import LogosModel.Look.SoundC
 import LogosModel.Look.TieC
 import LogosModel.Look.EquivC
+import LogosModel.Look.CertPC
 import Std.Data.HashMap
 import Std.Data.HashSet
 /-!
@@ -116,7 +117,7 @@ def certVerdictC (G : Graph) (prios : List Nat) (D : VecL) (T : Option (List LEn
     | none => "UNKNOWN fuel"
     | some h =>
       let C := toCSetC G.states.size h
-      if validCB G prios D V C then s!"OKL {h.size} {G.states.size} {T.length}"
+      if validCB G prios D V C then s!"OKL {h.size} {G.states.size} {T.length} {if prefixOKCB G prios V C then "P" else "noP"}"
       else if !wfB G then "FAIL wf"
       else s!"FAIL {(firstBadC G prios V C).getD "?"}"
 
